@@ -69,5 +69,30 @@ def run(ctx):
             what += " (except %s: %s)" % (sorted(allowed), why)
         ctx.check(not extra, "C46.coverage", p, what if not extra else "%s %s does not read field(s) %s of %s" % ("decoder of" if kind == "dec" else "encoder of", dom.split("::")[-1], sorted(extra), (raw if kind == "dec" else dom).split("::")[-1]),
                   key="C46.coverage|%s|%s|%s" % key)
+    # element-for-element: a repeated field is converted by a length-preserving pipeline. A length-changing
+    # adaptor (flatten / filter / skip / take / dedup ...) between a vector of the one form and the vector of
+    # the other silently drops or shifts elements whose position carries meaning (absent fraud-proof shares,
+    # row shares). Baseline on the pinned tree: none, except the frozen exception below.
+    from engine.mir import std_tail as _tail
+    LEN_CHANGING = ("Iterator::flatten", "Iterator::filter", "Iterator::filter_map", "Iterator::flat_map", "Iterator::skip", "Iterator::take", "Iterator::skip_while",
+                    "Iterator::take_while", "Iterator::step_by", "Vec::dedup", "Vec::retain", "Vec::truncate", "Vec::dedup_by_key")
+    POSITIONAL_OK = {("enc", "row::Row", "shwap::Row", "Iterator::take"): "only the original-data half of a row is transmitted (take(width / 2)); the decoder rebuilds the parity half"}
+    npos = 0
+    live = set()
+    for kind, dom, raw, p in pairs:
+        for q in ctx.facts.family(p):
+            qb = ctx.fn(q)
+            for blk in range(qb.n):
+                t = qb.blocks[blk]["t"]
+                if qb.blocks[blk]["cl"] or t["k"] != "call" or "f" not in t:
+                    continue
+                tl = _tail(t["f"])
+                if tl in LEN_CHANGING:
+                    k4 = (kind, dom.split("::", 1)[1], raw.split("::", 1)[1], tl)
+                    live.add(k4)
+                    ctx.check(k4 in POSITIONAL_OK, "C46.positional", q, "%s of %s uses the length-changing adaptor %s on a repeated field" % ("encoder" if kind == "enc" else "decoder", dom.split("::")[-1], tl) + (" - allowed: " + POSITIONAL_OK[k4] if k4 in POSITIONAL_OK else ""),
+                              site=qb.loc(blk), key="C46.positional|%s|%s|%s|%s" % k4)
+        npos += 1
+    ctx.check(set(POSITIONAL_OK) <= live, "C46.positional.exception-live", "row::Row", "the frozen positional exception still corresponds to code", key="C46.positional.exception-live")
     for key in EXCEPTIONS:
         ctx.check(key in seen_exc, "C46.exception-live", "::".join(key[1:]), "exception entry still corresponds to a conversion", key="C46.exception-live|%s|%s|%s" % key)
